@@ -14,6 +14,8 @@ def main() -> int:
     import pydantic  # noqa: F401
 
     print("vmc setup ok: python", sys.version.split()[0], "repo", bootstrap.REPO)
+    conda = "/root/miniconda/bin/python"
+    print("C33 interpreter (cryptography):", conda, "present" if os.path.exists(conda) else "MISSING - C33 will exit 2 (not runnable)")
     for d in ("evidence", "replays"):
         os.makedirs(os.path.join(bootstrap.VERIF, d), exist_ok=True)
     return 0
